@@ -1076,6 +1076,7 @@ func collectGlobalBounds() ElementHook {
 			}
 			st.lookupOptions.LowerAnchor = &lowBound
 			st.lookupOptions.UpperAnchor = &upBound
+			opToken, lastToken = nil, nil
 		default:
 			return nil, fmt.Errorf("global bound found unexpected token %v", tkn)
 		}
